@@ -83,7 +83,7 @@ pub fn src_def() -> RuleDefSrc {
     RuleDefSrc {
         name: Some("src".into()),
         sub: true,
-        rules: vec![RuleSrc::new("#{v: u8}", "0x1 @ v"), RuleSrc::new("{v: u8}", "0x2 @ v"), RuleSrc::new("({r: reg})", "0x3 @ 0x0 @ r"), RuleSrc::new("a", "0x4 @ 0x00")],
+        rules: vec![RuleSrc::new("#{v: u8}", "0x1 @ v"), RuleSrc::new("{v: u8}", "0x2 @ v"), RuleSrc::new("({r: reg})", "0x3 @ 0x0 @ r"), RuleSrc::new("a", "0x4 @ 0x0000")],
     }
 }
 
